@@ -296,6 +296,18 @@ STMTS = [
     ["print(x)  # type: prose after a call"], ["v = 1  # type: ignore"], ["x = b\"it's\""], ["d = {k: v for k, v in p}"],
     ["def r(n):", "    if n < 2:", "        return n", "    return r(n - 1) + r(n - 2)"],
     ["global_v: int = 3"], ["del x"], ["x = y = 0"], ["a, b = b, a"],
+    # shapes the SQL queries of spec.md derive labels from (closures, nested and recursive functions, generators, nested
+    # loops, accumulations); drawn twice in one program they are HOMONYMOUS, which is what the grouping keys of those
+    # queries must survive (seeded change C02-j: `closure` grouped by names instead of rowid, span 8-6)
+    ["def mk(n):", "    def add(x):", "        return x + n", "    return add"],
+    ["if D:", "    def deco(f):", "        def wrapper(*a):", "            return f(*a)", "        return wrapper", "else:",
+     "    def deco(f):", "        def wrapper(*a):", "            print(a)", "            return f(*a)", "        return wrapper"],
+    ["def gen(n):", "    for i in range(n):", "        yield i"],
+    ["for i in range(3):", "    for j in range(i):", "        print(i, j)"],
+    ["acc = 0", "for e in seq:", "    acc += e"], ["res = []", "for e in seq:", "    if e:", "        res.append(e)"],
+    ["class A:", "    def m(self):", "        return 1", "class A:", "    def m(self):", "        return self.m()"],
+    ["def f(a):", "    return a", "def f(a, b):", "    return f(a)"],
+    ["def out():", "    def inn():", "        def inn2():", "            return out", "        return inn2", "    return inn"],
 ]
 
 
@@ -310,8 +322,10 @@ def gen_program(rng, real_programs):
                                  ["@d", "async def f():", "    pass"], ["def f(:"]]))
     else:
         lines = []
+        drawn = []
         for _ in range(rng.randint(1, 5)):
-            lines += rng.choice(STMTS)
+            drawn.append(rng.choice(drawn) if drawn and rng.random() < 0.2 else rng.choice(STMTS))  # homonyms
+            lines += drawn[-1]
             if rng.random() < 0.15:
                 lines.append("")
             if rng.random() < 0.1:
